@@ -1068,9 +1068,18 @@ class Engine:
                     info = srcindex.impl_info(*f.impl_loc)
                     if not info:
                         continue
-                    if c.trait and info['trait'] != c.trait:
+                    if c.trait and info['trait'] != c.trait and not info.get('macro'):
                         continue
                     if not c.trait and info['trait'] is not None:
+                        continue
+                    if info.get('macro_external'):
+                        heads = set()
+                        for t in [a[1] for a in f.args[:1]] + [f.ret or '']:
+                            heads.add(type_head(strip_refs(t)))
+                            for x in type_args(strip_refs(t)):
+                                heads.add(type_head(strip_refs(x)))
+                        if sh in heads:
+                            out.append((0, f))
                         continue
                     if info['self'] == sh or info['generic_self']:
                         out.append((0 if info['self'] == sh else 1, f))
@@ -1094,6 +1103,15 @@ class Engine:
                         continue
                     info = srcindex.impl_info(*f.impl_loc)
                     if not info:
+                        continue
+                    if info.get('macro_external'):
+                        heads = set()
+                        for t in [a[1] for a in f.args[:1]] + [f.ret or '']:
+                            heads.add(type_head(strip_refs(t)))
+                            for x in type_args(strip_refs(t)):
+                                heads.add(type_head(strip_refs(x)))
+                        if ids[-2] in heads:
+                            out.append(f)
                         continue
                     if info['self'] == ids[-2] and (info['trait'] is None or True):
                         out.append(f)
@@ -1188,6 +1206,11 @@ class Engine:
         if call.arg_tys and call.arg_tys[0]:
             h = type_head(call.arg_tys[0])
             pick = [f for f in fns if f.args and type_head(f.args[0][1]) == h]
+            if pick:
+                fns = pick
+        if len(fns) > 1 and call.arg_tys and len(call.arg_tys) > 1 and call.arg_tys[1]:
+            h = type_head(call.arg_tys[1])
+            pick = [f for f in fns if len(f.args) > 1 and type_head(f.args[1][1]) == h]
             if pick:
                 fns = pick
         if len(fns) > 1 and call.dest_ty:
